@@ -10,7 +10,7 @@ use serde_json::{json, Value};
 use std::panic::{catch_unwind, AssertUnwindSafe};
 
 /// serde_json::Value of a graph -> [n_nodes, w.., n_holes, h.., directed, n_edges, (flag s t w)*]
-fn wire_nums(v: &Value) -> Vec<i64> {
+pub fn wire_nums(v: &Value) -> Vec<i64> {
     let mut out = Vec::new();
     let nodes = v["nodes"].as_array().cloned().unwrap_or_default();
     out.push(nodes.len() as i64);
@@ -28,7 +28,7 @@ fn wire_nums(v: &Value) -> Vec<i64> {
     out
 }
 
-fn wire_value(a: &[i64]) -> Value {
+pub fn wire_value(a: &[i64]) -> Value {
     let nn = a[0] as usize;
     let nodes: Vec<Value> = a[1..1 + nn].iter().map(|x| json!(x)).collect();
     let nh = a[1 + nn] as usize;
@@ -54,7 +54,7 @@ fn canon(b: Vec<String>) -> Vec<String> {
 }
 
 /// byte-level robustness: mutated JSON and bincode streams must give Err or a graph whose battery does not panic
-fn bytemut<T: Serialize + DeserializeOwned>(g: &T, seed: i64, use_it: &dyn Fn(T)) -> String {
+pub fn bytemut<T: Serialize + DeserializeOwned>(g: &T, seed: i64, use_it: &dyn Fn(T)) -> String {
     let mut r = Rng::new(seed as u64);
     let js = serde_json::to_vec(g).unwrap();
     let bc = bincode::serialize(g).unwrap();
